@@ -307,7 +307,6 @@ class Inliner:
             b = bs[0]
             if b.get("kind") in ("Fn", "AssocFn") and "hir" in b and str(b.get("vis", "")).startswith("Restricted") and not b.get("unsafe_fn") \
                     and all(p.get("k") == "pbind" and "Ref" not in str(p.get("mode", "")) for p in b.get("params", [])) \
-                    and not any(x.get("k") == "ret" for x in nodes_outside_closures(b["hir"])) \
                     and not any(x.get("k") == "call" and (x.get("resolved") or x.get("callee")) == path for x in all_nodes(b["hir"])):
                 ok = b
         self._cand[path] = ok
@@ -347,6 +346,26 @@ class Inliner:
                 return r
             return n
         body = map_tree(body, subst)
+        label = None
+        if any(x.get("k") == "ret" for x in nodes_outside_closures(body)):
+            # `return e` of the helper leaves the inlined body only: a labelled block with `break 'label e`
+            label = f"inl{self.ids.next()}"
+
+            def unret(n, inside_closure=False):
+                if isinstance(n, list):
+                    return [unret(x, inside_closure) for x in n]
+                if not isinstance(n, dict):
+                    return n
+                if n.get("k") == "closure":
+                    return n
+                m = {k: (unret(v) if isinstance(v, (dict, list)) else v) for k, v in n.items()}
+                if m.get("k") == "ret":
+                    r = {"k": "break", "label": label, "to_block": True, "ty": "!", "ln": m.get("ln")}
+                    if "e" in m:
+                        r["e"] = m["e"]
+                    return r
+                return m
+            body = unret(body)
         for x in all_nodes(body):
             if "k" in x:
                 x.setdefault("inl", b["path"])
@@ -358,6 +377,8 @@ class Inliner:
         else:
             expr = body
         out = {"k": "block", "stmts": stmts, "ty": call.get("ty"), "ln": call.get("ln"), "inlined": b["path"]}
+        if label is not None:
+            out["label"] = label
         if expr is not None:
             out["expr"] = expr
         return out
@@ -371,7 +392,7 @@ def _first_inlined(s):
             return None, True
         k = e.get("k")
         if k == "block":
-            if e.get("inlined"):
+            if e.get("inlined") and not e.get("label"):
                 return (e, setter), False
             if not e.get("stmts") and "expr" in e and "unsafe" not in e:
                 return go(e["expr"], lambda v, e=e: e.__setitem__("expr", v))
@@ -454,7 +475,7 @@ def hoist(root):
             guard = 0
             while guard < 50:
                 guard += 1
-                if isinstance(s, dict) and s.get("k") == "block" and s.get("inlined") and "unsafe" not in s:
+                if isinstance(s, dict) and s.get("k") == "block" and s.get("inlined") and "unsafe" not in s and not s.get("label"):
                     # the statement itself is an inlined block
                     res.extend(s.get("stmts", []))
                     if "expr" in s:
